@@ -266,6 +266,7 @@ def _register_rel(marker, token_kind):
         f"RelativeJSONPointer.to[{'#' if marker else 'pointer'},{token_kind} index token]==draft",
         ("C16",),
         ["jsonpath.pointer:RelativeJSONPointer.to", "jsonpath.pointer:RelativeJSONPointer._int_like"],
+        replay=("relptr_replay", [marker], "relptr_candidates"),
         tier="quick" if token_kind == "int" else "thorough",  # string index tokens: minutes of regex reasoning inside the sequence theory
     )
     def _c(ctx, marker=marker, token_kind=token_kind):
